@@ -117,10 +117,13 @@ def _rand_target(rng, tier):
 
 def gen_case(rng, tier):
     maxk = 4 if tier == "quick" else 5
+    big = rng.random() < 0.06  # swarm: a few runs on larger sizes than the bulk
     ndist = rng.choice([1, 1, 2, 2, 3, 4])
     dist = []
     for _ in range(ndist):
         k = rng.choice([0, 1, 2, 2, 3, 3, 3, 4, 4, 5][: (9 if maxk == 4 else 10)])
+        if big:
+            k = rng.choice([4, 5, 5, 6, 6, 7])
         dist.append(common.rand_perm(rng, k))
     pool = []
     for p in dist:
@@ -133,12 +136,17 @@ def gen_case(rng, tier):
     live = []
     live_patt = {}
     nid = 0
-    targets = [_rand_target(rng, tier) for _ in range(rng.randint(1, 4))]
+    def fresh_target():
+        if big:
+            return common.rand_perm(rng, rng.choice([7, 8, 8, 9]))
+        return _rand_target(rng, tier)
+
+    targets = [fresh_target() for _ in range(rng.randint(1, 4))]
 
     def target():
         if rng.random() < 0.7:
             return rng.choice(targets)
-        t = _rand_target(rng, tier)
+        t = fresh_target()
         targets.append(t)
         return t
 
